@@ -152,6 +152,14 @@ class C04(Check):
                                name='classify_intervals_step%d[G=%d]' % (st, g))
             self.absorb(exp, need_paths=2)
         self.bounds['DB level']['other time steps'] = '2700 s, 7200 s (G=3)' if self.tier == 'quick' else '1200, 2700, 7200 s (G=4)'
+        # a stretch boundary between two neighbouring instants that both carry a level (see C03 / dbstate.labels_of)
+        breaks = [1, 2] if self.tier == 'quick' else list(range(G))
+        self.bounds['DB level']['stretch boundaries without a NULL instant'] = 'one, after instant %s' % breaks
+        for b in breaks:
+            exp = symx.explore(classify_db.harness, {'G': G, 'step_s': 1800, 'props': ('C04',), 'seed': self.seed,
+                                                     'replay_every': 13, 'brk': (b,)},
+                               name='classify_intervals_break%d[G=%d]' % (b, G))
+            self.absorb(exp, need_paths=2)
 
     def replay(self, failure):
         if failure['harness'].startswith('classify_intervals'):
@@ -160,7 +168,10 @@ class C04(Check):
             st = 1800
             if '_step' in failure['harness']:
                 st = int(failure['harness'].split('_step')[1].split('[')[0])
-            return classify_db.replay_failure({'G': G, 'step_s': st}, failure)
+            ctx = {'G': G, 'step_s': st}
+            if '_break' in failure['harness']:
+                ctx['brk'] = (int(failure['harness'].split('_break')[1].split('[')[0]),)
+            return classify_db.replay_failure(ctx, failure)
         N = int(failure['harness'].split('=')[1].rstrip(']'))
         m = model_fractions(failure.get('model'))
         import numpy as np
